@@ -58,7 +58,13 @@ func TestVerifC13(t *testing.T) {
 		mb := []int{1, 2, 3, 5, 8}[r.Intn(5)]
 		nev := 10 + r.Intn(maxev)
 		focus := i%2 == 1
+		if cfsDeadCases >= 3 {
+			break
+		}
 		c := c13Run(t, r, mb, nev, focus)
+		if c.dead {
+			cfsDeadCases++
+		}
 		tags := append(c.tags(), fmt.Sprintf("mb=%d", mb))
 		nontrivial := false
 		for _, tg := range tags {
